@@ -295,7 +295,9 @@ func Walk(v Visitor, node ast.Node) {
 
 	case *ast.TypeSwitch:
 		Walk(v, n.Init)
-		Walk(v, n.Assignment)
+		if n.Assignment != nil {
+			Walk(v, n.Assignment)
+		}
 		if n.LeadingText != nil {
 			Walk(v, n.LeadingText)
 		}
@@ -314,7 +316,9 @@ func Walk(v Visitor, node ast.Node) {
 	case *ast.Using:
 		Walk(v, n.Statement)
 		Walk(v, n.Type)
-		Walk(v, n.Body)
+		if n.Body != nil {
+			Walk(v, n.Body)
+		}
 
 	case *ast.Var:
 		for _, ident := range n.Lhs {
